@@ -268,8 +268,9 @@ func (db *DB) Session(config *Session) *DB {
 		if v, ok := db.cacheStore.Load(preparedStmtDBKey); ok {
 			preparedStmt = v.(*PreparedStmtDB)
 		} else {
-			preparedStmt = NewPreparedStmtDB(db.ConnPool)
-			db.cacheStore.Store(preparedStmtDBKey, preparedStmt)
+			// LoadOrStore: sessions created concurrently must all end up on the cache that was registered first
+			v, _ = db.cacheStore.LoadOrStore(preparedStmtDBKey, NewPreparedStmtDB(db.ConnPool))
+			preparedStmt = v.(*PreparedStmtDB)
 		}
 
 		switch t := tx.Statement.ConnPool.(type) {
